@@ -15,6 +15,8 @@ driver pplv_widen judges every step with the verified deciders K1 / K2 and the c
 """
 import collections, concurrent.futures as cf, hashlib, json, os, re
 
+from . import c08_impl
+
 LEVEL = "proof"
 FAM = {"BQ": "BDS", "BD": "BDS", "OQ": "Oct", "OD": "Oct"}
 NPROC = 14
@@ -212,6 +214,9 @@ def run(ctx):
             reported.add(key)
     for b in broken:
         ctx.violation("proof obligation broken: " + b, {"obligation": b}, found_input=False)
+    # stage 2: the widening implementations inside the Lean model (polyhedra, shapes / boxes, grids)
+    if not ctx.replay:
+        c08_impl.run(ctx)
 
     lens = {"%s %s" % k: (max(v) if v else 0) for k, v in chain_len.items()}
     levels = collections.Counter()
@@ -253,6 +258,8 @@ def run(ctx):
 def replay(ctx, path):
     """Re-run the recorded history against the current tree and re-judge it (exit 1 iff it still fails)."""
     r = json.load(open(path))
+    if c08_impl.is_impl_replay(r):
+        return c08_impl.replay(ctx, path)
     print("property=%s what=%s" % (r.get("property"), r.get("what")))
     seed, hid = r.get("seed", ctx.seed), r.get("history")
     if hid is None:
